@@ -314,7 +314,7 @@ def check(c):
                 continue
             pos2 = []
             for a_, v_ in zip(it.args.pos, o.get("args", [])):
-                if type(v_) is float and v_.is_integer() and abs(v_) < 1e9 and not (isinstance(a_, A.Flat) and len(a_.operands) == 1
+                if isinstance(v_, float) and not isinstance(v_, bool) and float(v_).is_integer() and abs(v_) < 1e9 and not (isinstance(a_, A.Flat) and len(a_.operands) == 1
                                                                                    and isinstance(a_.operands[0].prim, A.Num)):
                     pos2.append(S.F1(A.Num("int", str(abs(int(v_)))), "-" if v_ < 0 else ""))
                     changed += 1
